@@ -59,7 +59,7 @@ def make_inputs(job):
     sizes = [job["sizes"][eng.choose(len(job["sizes"]), "sz%d" % i)] for i in range(job["k"])]
     send_bytes = eng.fresh_int("send_bytes", 1, 512)
     watermark = eng.fresh_int("watermark", 0, 512)
-    acc0 = (None, -1, 0)[eng.choose(3, "acc0")]
+    acc0 = (None, -1, 0, "leave1@2", "leave40@2", "leave1@3")[eng.choose(6 if job["mode"] == "write_block" else 3, "acc0")]
     from wsx import runner
     if "D20-send-bytes-above-watermark-deadlock" in runner.CURRENT_KNOWN:
         # recorded finding: with watermark < pending < send_bytes the producer waits and the I/O thread never flushes
@@ -117,11 +117,21 @@ def scenario(ns, inp):
         if inp["acc0"] is not None:
             orig = conn.send
             state = [True]
+            nth = [0]
+            if isinstance(inp["acc0"], str):
+                leave, at = int(inp["acc0"][5:].split("@")[0]), int(inp["acc0"].split("@")[1])
+            else:
+                leave, at = None, 1
 
             def send(d):
-                if state[0]:
+                nth[0] += 1
+                if state[0] and nth[0] == at:
                     state[0] = False
-                    conn.accept = [len(d) - 1 if inp["acc0"] == -1 else 0]
+                    if leave is not None:
+                        # a partial send means the kernel buffer is full: the next send would block
+                        conn.accept = [max(1, len(d) - leave), 0]
+                    else:
+                        conn.accept = [len(d) - 1 if inp["acc0"] == -1 else 0]
                 return orig(d)
             conn.send = send
         sysm.run()
